@@ -1,3 +1,4 @@
+import RedoModel.Props.C18d
 import RedoModel.Props.C18c
 import RedoModel.Lemmas.LogRec
 import RedoModel.Props.C18b
